@@ -72,6 +72,8 @@ type wireExtractor struct {
 	// reader: Data.Read calls whose result is never handed to a decode primitive (raw payload reads)
 	rawReads map[*ast.CallExpr]bool
 	depth    int
+	// loop variable of an unrolled `for _, v := range []T{a, b, c}` -> the element it stands for
+	subst map[types.Object]ast.Expr
 }
 
 // undecodedReads: Data.Read calls in body whose slice result variable is not an
@@ -206,6 +208,26 @@ func (x *wireExtractor) stmt(s ast.Stmt) []wireItem {
 		return append(pre, wireItem{Kind: "LOOP", Items: body, pos: s.Pos()})
 	case *ast.RangeStmt:
 		pre := x.expr(s.X)
+		// a loop over a literal list of values (`for _, v := range []interface{}{a, b, c}`)
+		// is the sequence of its iterations: unroll it, v standing for each element in turn
+		if lit := x.literalOf(s.X); lit != nil && len(lit.Elts) > 0 && len(lit.Elts) <= 32 && s.Value != nil && (s.Key == nil || isBlank(s.Key)) {
+			if vid, ok := s.Value.(*ast.Ident); ok && x.info.Defs[vid] != nil {
+				obj := x.info.Defs[vid]
+				if x.subst == nil {
+					x.subst = map[types.Object]ast.Expr{}
+				}
+				out := pre
+				for _, e := range lit.Elts {
+					if kv, ok := e.(*ast.KeyValueExpr); ok {
+						e = kv.Value
+					}
+					x.subst[obj] = e
+					out = append(out, x.block(s.Body.List)...)
+				}
+				delete(x.subst, obj)
+				return out
+			}
+		}
 		body := x.block(s.Body.List)
 		if len(body) == 0 {
 			return pre
@@ -311,6 +333,102 @@ func stripCarry(in []wireItem) []wireItem {
 
 // carryOf: the struct field path an expression denotes ("footer.numDocs"),
 // package-level constant name for constants, else "".
+func isBlank(e ast.Expr) bool {
+	id, ok := e.(*ast.Ident)
+	return ok && id.Name == "_"
+}
+
+// unsubst: the element an unrolled loop variable currently stands for.
+func (x *wireExtractor) unsubst(e ast.Expr) ast.Expr {
+	if id, ok := ast.Unparen(e).(*ast.Ident); ok && x.subst != nil {
+		if r, ok := x.subst[x.info.Uses[id]]; ok {
+			return r
+		}
+	}
+	return e
+}
+
+// literalOf: e is a slice/array composite literal, or a local variable that is
+// defined once by such a literal and never assigned (nor element-assigned) again.
+func (x *wireExtractor) literalOf(e ast.Expr) *ast.CompositeLit {
+	e = ast.Unparen(e)
+	if lit, ok := e.(*ast.CompositeLit); ok {
+		switch x.info.TypeOf(lit).Underlying().(type) {
+		case *types.Slice, *types.Array:
+			return lit
+		}
+		return nil
+	}
+	id, ok := e.(*ast.Ident)
+	if !ok {
+		return nil
+	}
+	obj, ok := x.info.Uses[id].(*types.Var)
+	if !ok || obj.Parent() == obj.Pkg().Scope() {
+		return nil
+	}
+	var lit *ast.CompositeLit
+	other := false
+	for _, f := range x.c.Root.Syntax {
+		if f.Pos() > obj.Pos() || obj.Pos() > f.End() {
+			continue
+		}
+		ast.Inspect(f, func(n ast.Node) bool {
+			switch n := n.(type) {
+			case *ast.AssignStmt:
+				for i, lhs := range n.Lhs {
+					lhs = ast.Unparen(lhs)
+					if ix, ok := lhs.(*ast.IndexExpr); ok {
+						if xid, ok := ast.Unparen(ix.X).(*ast.Ident); ok && x.info.Uses[xid] == types.Object(obj) {
+							other = true
+						}
+					}
+					lid, ok := lhs.(*ast.Ident)
+					if !ok {
+						continue
+					}
+					if x.info.Defs[lid] == types.Object(obj) && len(n.Rhs) == len(n.Lhs) {
+						if cl, ok := ast.Unparen(n.Rhs[i]).(*ast.CompositeLit); ok {
+							lit = cl
+						} else {
+							other = true
+						}
+					} else if x.info.Uses[lid] == types.Object(obj) {
+						other = true
+					}
+				}
+			case *ast.ValueSpec:
+				for i, nm := range n.Names {
+					if x.info.Defs[nm] == types.Object(obj) {
+						if i < len(n.Values) {
+							if cl, ok := ast.Unparen(n.Values[i]).(*ast.CompositeLit); ok {
+								lit = cl
+								continue
+							}
+						}
+						other = true
+					}
+				}
+			case *ast.UnaryExpr:
+				if n.Op == token.AND {
+					if xid, ok := ast.Unparen(n.X).(*ast.Ident); ok && x.info.Uses[xid] == types.Object(obj) {
+						other = true
+					}
+				}
+			}
+			return true
+		})
+	}
+	if other || lit == nil {
+		return nil
+	}
+	switch x.info.TypeOf(lit).Underlying().(type) {
+	case *types.Slice, *types.Array:
+		return lit
+	}
+	return nil
+}
+
 func (x *wireExtractor) carryOf(e ast.Expr) string {
 	e = ast.Unparen(e)
 	switch e := e.(type) {
@@ -329,6 +447,9 @@ func (x *wireExtractor) carryOf(e ast.Expr) string {
 	case *ast.Ident:
 		if k, ok := x.info.Uses[e].(*types.Const); ok && k.Parent() == k.Pkg().Scope() {
 			return "const " + k.Name()
+		}
+		if r := x.unsubst(e); r != ast.Expr(e) {
+			return x.carryOf(r)
 		}
 	case *ast.CallExpr:
 		// conversions uint64(x)
@@ -427,7 +548,7 @@ func (x *wireExtractor) call(call *ast.CallExpr) []wireItem {
 				x.problems = append(x.problems, "binary.Write with a byte order other than binary.BigEndian at "+x.c.pos(at))
 				return mk("U??", "")
 			}
-			t := x.info.TypeOf(call.Args[2])
+			t := x.info.TypeOf(x.unsubst(call.Args[2]))
 			kind := "BW:" + t.String()
 			if b, ok := t.Underlying().(*types.Basic); ok {
 				switch b.Kind() {
@@ -501,7 +622,7 @@ func (x *wireExtractor) call(call *ast.CallExpr) []wireItem {
 var wireBoundary = map[string]bool{
 	"persistFooter": true, "persistFields": true, "writePostings": true,
 	"(*interim).writeDictsField": true, "(*interim).writeDictsTermField": true, "writeMergedDict": true,
-	"(*interim).writeDicts": true, "writeDvLocs": true, "buildMergedDocVals": true,
+	"(*interim).writeDicts": true, "buildMergedDocVals": true,
 	"(*chunkedDocumentCoder).Add": true, "(*chunkedDocumentCoder).Write": true, "(*chunkedDocumentCoder).flush": true,
 	"(*chunkedDocumentCoder).newLine":      true,
 	"(*chunkedContentCoder).flushContents": true, "(*chunkedContentCoder).Write": true, "(*chunkedContentCoder).Add": true,
